@@ -240,37 +240,48 @@ def sin_vector(x: Interval):  # vectorised version of sin().
     a = sin_l.copy()
     b = sin_h.copy()
 
-    # [-1,1]
-    mask3a = contain(domain1, yl) & contain(domain1, yh) & (yl > yh)
-    mask3b = contain(domain1, yl) & contain(domain3, yh)
-    mask3c = contain(domain2, yl) & contain(domain2, yh) & (yl > yh)
-    mask3d = contain(domain3, yl) & contain(domain3, yh) & (yl > yh)
-    case1 = mask1a | mask3a | mask3b | mask3c | mask3d
-    a[case1] = -1
-    b[case1] = 1
-    if all(case1):
-        return Interval(lo=a, hi=b)
-    # [h,l]
-    mask2b = (
-        contain(domain2, yl[~case1])
-        & contain(domain2, yh[~case1])
-        & (yl[~case1] <= yh[~case1])
-    )  # return Interval(sin_h,sin_l)
-    case2 = mask2b
-    a[case2] = sin_h[case2]
-    b[case2] = sin_l[case2]
-    # [min, 1]
-    mask5a = contain(domain1, yl[~case1]) & contain(domain2, yh[~case1])
-    mask5b = contain(domain3, yl[~case1]) & contain(domain2, yh[~case1])
-    case3 = mask5a | mask5b
-    a[case3] = min(sin_l[case3], sin_h[case3])
-    b[case3] = 1
+    ordered = yl <= yh
+    l1, h1 = contain(domain1, yl), contain(domain1, yh)
+    l2, h2 = contain(domain2, yl), contain(domain2, yh)
+    l3, h3 = contain(domain3, yl), contain(domain3, yh)
+
+    # The masks are computed on the full arrays. They overlap (width >= 2 pi, reduced
+    # endpoint on a multiple of pi/2) and a later assignment overwrites an earlier one:
+    # they are applied in the reverse of the order in which sin() tests them, so that
+    # element by element the first matching case of sin() wins.
     # [-1, max]
-    mask6a = contain(domain2, yl[~case1]) & contain(domain1, yh[~case1])
-    mask6b = contain(domain2, yl[~case1]) & contain(domain3, yh[~case1])
-    case4 = mask6a | mask6b
+    case4 = (l2 & h1) | (l2 & h3)
     a[case4] = -1
     b[case4] = max(sin_l[case4], sin_h[case4])
+    # [min, 1]
+    case3 = (l1 & h2) | (l3 & h2)
+    a[case3] = min(sin_l[case3], sin_h[case3])
+    b[case3] = 1
+    # [l,h] across a multiple of 2 pi
+    case2 = l3 & h1
+    a[case2] = sin_l[case2]
+    b[case2] = sin_h[case2]
+    # [-1,1]
+    mask3a = l1 & h1 & ~ordered
+    mask3b = l1 & h3
+    mask3c = l2 & h2 & ~ordered
+    mask3d = l3 & h3 & ~ordered
+    case1 = mask3a | mask3b | mask3c | mask3d
+    a[case1] = -1
+    b[case1] = 1
+    # both reduced endpoints in the same monotone piece: [l,h], [h,l], [l,h]
+    mono3 = l3 & h3 & ordered
+    a[mono3] = sin_l[mono3]
+    b[mono3] = sin_h[mono3]
+    mono2 = l2 & h2 & ordered
+    a[mono2] = sin_h[mono2]
+    b[mono2] = sin_l[mono2]
+    mono1 = l1 & h1 & ordered
+    a[mono1] = sin_l[mono1]
+    b[mono1] = sin_h[mono1]
+    # [-1,1]
+    a[mask1a] = -1
+    b[mask1a] = 1
     return Interval(lo=a, hi=b)
 
 
